@@ -196,5 +196,22 @@ Example C16_translated_ReadAt_runs :
   = GoLite.RRet (GoLite.VTuple [GoLite.VInt 2%Z; GoLite.VErr "io.EOF"%string; GoLite.VInts [5; 6; 9; 9]%Z]).
 Proof. vm_compute. split; reflexivity. Qed.
 
+(* the constructor, translated likewise: the reader value the two theorems above are stated for (GoLiteC16_ReadAt.mval: the
+   offset table offsets segs) IS what NewMultiReaderAt builds from the pieces' sizes — the prefix sums, in int64 *)
+Require YF.GoLiteC16_New.
+Theorem C16_translated_NewMultiReaderAt_builds_the_offset_table : forall ext fuel (segs : list (list Z)),
+  (Z.of_nat (List.length (List.concat segs)) < 9223372036854775808)%Z ->
+  (Z.of_nat (List.length segs) < 4611686018427387904)%Z -> (List.length segs < fuel)%nat ->
+  GoLite.call GoLiteC16.prog ext fuel "NewMultiReaderAt"%string
+    [GoLite.VInts (repeat 0%Z (List.length segs)); GoLite.VInts (sizes_of segs)] =
+  GoLite.RRet (GoLiteC16_ReadAt.mval segs).
+Proof. exact (GoLiteC16_New.NewMultiReaderAt_is_mval GoLiteC16.prog GoLiteC16.prog_NewMultiReaderAt). Qed.
+
+Example C16_translated_NewMultiReaderAt_runs :
+  GoLite.call GoLiteC16.prog GoLite.no_ext 10 "NewMultiReaderAt"%string [GoLite.VInts [0; 0; 0]%Z; GoLite.VInts [5; 0; 7]%Z]
+  = GoLite.RRet (GoLite.VStruct [("readers"%string, GoLite.VInts [0; 0; 0]%Z); ("offsets"%string, GoLite.VInts [0; 5; 5]%Z)]).
+Proof. vm_compute. reflexivity. Qed.
+
 Print Assumptions C16_translated_ReadAt_is_the_model.
 Print Assumptions C16_translated_ReadAt_is_the_concatenation.
+Print Assumptions C16_translated_NewMultiReaderAt_builds_the_offset_table.
